@@ -310,8 +310,8 @@ def _get_bus_id_caller(bus):
 
     """
 
-    if np.array(bus.idx.v).dtype == object:
-        return lambda x: bus.idx2uid(x) + 1
+    if any(isinstance(item, str) for item in bus.idx.v):
+        return lambda x: np.array(bus.idx2uid(x)) + 1
     else:
         return lambda x: x
 
@@ -350,16 +350,17 @@ def system2mpc(system) -> dict:
     # area and zone not supported
 
     # --- PQ ---
+    # NOTE: several devices can be connected to one bus; sum the online ones
     if system.PQ.n > 0:
         pq_pos = system.Bus.idx2uid(system.PQ.bus.v)
-        bus[pq_pos, 2] = system.PQ.p0.v * base_mva
-        bus[pq_pos, 3] = system.PQ.q0.v * base_mva
+        np.add.at(bus[:, 2], pq_pos, system.PQ.u.v * system.PQ.p0.v * base_mva)
+        np.add.at(bus[:, 3], pq_pos, system.PQ.u.v * system.PQ.q0.v * base_mva)
 
     # --- Shunt ---
     if system.Shunt.n > 0:
         shunt_pos = system.Bus.idx2uid(system.Shunt.bus.v)
-        bus[shunt_pos, 4] = system.Shunt.g.v * base_mva
-        bus[shunt_pos, 5] = system.Shunt.b.v * base_mva
+        np.add.at(bus[:, 4], shunt_pos, system.Shunt.u.v * system.Shunt.g.v * base_mva)
+        np.add.at(bus[:, 5], shunt_pos, system.Shunt.u.v * system.Shunt.b.v * base_mva)
 
     # --- PV ---
     if system.PV.n > 0:
@@ -378,9 +379,11 @@ def system2mpc(system) -> dict:
 
     # --- Slack ---
     if system.Slack.n > 0:
-        slack_pos = system.Bus.idx2uid(system.Slack.bus.v)
+        # only online slack generators define the bus type and the reference angle
+        slack_on = np.array(system.Slack.u.v) == 1
+        slack_pos = np.array(system.Bus.idx2uid(system.Slack.bus.v))[slack_on]
         bus[slack_pos, 1] = 3
-        bus[slack_pos, 8] = system.Slack.a0.v * rad2deg
+        bus[slack_pos, 8] = np.array(system.Slack.a0.v)[slack_on] * rad2deg
 
         gen[:system.Slack.n, 0] = to_busid(system.Slack.bus.v)
         gen[:system.Slack.n, 1] = system.Slack.p0.v * base_mva
